@@ -86,6 +86,7 @@ DEFAULT_CFG = {
     "select_args": [],
     "analyze": False,
     "schedule_seed": 0,
+    "late_eval": False,
 }
 
 
@@ -157,11 +158,12 @@ class NfEmulator:
         n_chunks = int(params.get("n_chunks", self.cfg["n_chunks"]))
         self.n += 1
         rec = {"n": self.n, "mode": mode, "step": None, "params": dict(params), "outdir": outdir, "name": name, "work": work,
-               "published": [], "ran": [], "selected": None, "completed": False, "inputs": {}}
+               "published": [], "ran": [], "selected": None, "completed": False, "all_done": False, "inputs": {}}
         self.launches.append(rec)
         tasks = self.build(mode, params, name, n_chains, n_chunks, rec)
         self.execute(tasks, rec, outdir, name, work)
         rec["completed"] = True
+        rec["all_done"] = True
 
     # -- workflows --------------------------------------------------------------------------------------------
     def build(self, mode, params, name, n_chains, n_chunks, rec):
@@ -292,6 +294,10 @@ class NfEmulator:
             ready = [t for t in pending if all(d in done for d in t.deps)]
             if not ready:
                 raise PipelineError("dependency cycle")
+            if self.cfg.get("late_eval"):
+                # a legal schedule: model evaluation (not upstream of the marker) finishes after everything else
+                others = [t for t in ready if not t.name.startswith(("EVALUATE_MODEL", "ANALYZE_MODEL_EVALUATION"))]
+                ready = others or ready
             t = rng.choice(ready)
             pending.remove(t)
             self.tick("%s:start:%s" % (job, t.name))
@@ -311,6 +317,10 @@ class NfEmulator:
                     os.unlink(dst)            # publishDir overwrites
                 os.symlink(src, dst)
                 rec["published"].append((fn, src))
+                if fn == "screen_metadata.json" and rec["mode"] != "prospective":
+                    # in the retrospective / next_plate workflows the marker is downstream of every file the script reads:
+                    # from here on the step IS complete for the script, whatever else (model evaluation) is still running
+                    rec["completed"] = True
             with open(os.path.join(outdir, "versions.yml"), "w") as f:      # path "versions.yml" is published to outdir itself
                 f.write('"%s":\n    batchie: emulated\n' % t.name)
             done.add(t.name)
